@@ -9,7 +9,7 @@ import hv, iogen, iorun, iosuite, ioeval
 def build_cases(ctx, reg):
     g = iogen.Gen(ctx.rng, reg)
     quick = ctx.tier == "quick"
-    cases = iosuite.corpus_cases()
+    cases = iosuite.corpus_cases("C01")
     cases += iogen.scalar_matrix(g)
     cases += iosuite.strings_family(g)
     cases += iosuite.maps_family(g)
@@ -17,6 +17,8 @@ def build_cases(ctx, reg):
     cases += iosuite.probe_family(g)
     cases += iosuite.graphs_family(g, 6 if quick else 60)
     cases += iosuite.registered(g, reg, 15 if quick else 200)
+    # cycles and error values are C02's domain (C01: values of the supported types, pointers to any depth)
+    cases = [c for c in cases if not any(x in c.get("tag", "") for x in (":cyc", "selfloop", "tree-self", "cycle", "probe:error", "probefield:error"))]
     return cases
 
 
